@@ -255,6 +255,7 @@ int main(int argc, char *argv[])
 		}
 	}
 
-	exit(err);
+	/* The exit status is the number of errors; only 8 bits reach the
+	 * parent, so do not let 256 failures wrap around to "success". */
+	exit(err > 255 ? 255 : err);
 }
-
